@@ -1184,6 +1184,71 @@ pub fn run(ctx: &Ctx) -> Report {
         breakdown.insert("several_roots", json!({"cases": cases.len()}));
     }
 
+    // ---- 2d. a fragment with declarations of its own, included several times: every inclusion is the fragment's text
+    //      at that place, so the program equals the one with the text written out (compared with exactly that program)
+    {
+        let fragments: [(&str, &str); 6] = [
+            ("local-constant", ".v = 9\n"),
+            ("local-constant-reading-a-sibling", ".v = .w + 8\n"),
+            ("local-label-and-data", ".v:\n#d8 0x77\n"),
+            ("global-constant", "gv = 9\n"),
+            ("local-constant-and-use", ".v = 9\n#d8 .v + .w\n"),
+            ("nested-levels", ".v:\n..u = .w\n#d8 ..u\n"),
+        ];
+        let parents = ["a", "b", "c"];
+        let mut cases: Vec<(String, Vec<(String, Vec<u8>)>, String)> = vec![];
+        for (fname, ftext) in fragments {
+            for nparents in 1..=3usize {
+                for per_parent in 1..=2usize {
+                    for in_sub in [false, true] {
+                        for use_after in [false, true] {
+                            let path = if in_sub { "inc/fields.asm" } else { "fields.asm" };
+                            let mut with_inc = String::new();
+                            let mut spliced = String::new();
+                            for (k, p) in parents.iter().take(nparents).enumerate() {
+                                let headl = format!("{}:\n.w = {}\n", p, k + 1);
+                                with_inc += &headl;
+                                spliced += &headl;
+                                for _ in 0..per_parent {
+                                    with_inc += &format!("#include \"{}\"\n", path);
+                                    spliced += ftext;
+                                }
+                                let tail = format!("#d8 .w, {}\n", if fname == "global-constant" { "gv" } else { ".v" });
+                                with_inc += &tail;
+                                spliced += &tail;
+                            }
+                            if use_after && fname != "global-constant" {
+                                let tail = format!("#d8 {}.v\n", parents[nparents - 1]);
+                                with_inc += &tail;
+                                spliced += &tail;
+                            }
+                            let name = format!("{} parents{} inclusions-per-parent{} sub{} use-after{}", fname, nparents, per_parent, in_sub, use_after);
+                            cases.push((name, vec![("main.asm".to_string(), with_inc.into_bytes()), (path.to_string(), ftext.as_bytes().to_vec())], spliced));
+                        }
+                    }
+                }
+            }
+        }
+        stash(&mut parts, 7, par_cases(&cases, |(name, files, spliced), l| {
+            l.eval();
+            l.nontrivial(name);
+            let o1 = run::assemble_files(files, &["main.asm"], &run::Opts::default());
+            let o2 = run::assemble_str(spliced, &run::Opts::default());
+            l.class(if o2.success() { "fragment-repeated-ok" } else { "fragment-repeated-rejected" });
+            l.traces_validated += 1;
+            let same = o1.panicked.is_none() && ((o2.success() && o1.success() && o1.bits == o2.bits && o1.symbols == o2.symbols) || (o2.failure() && o1.failure()));
+            if !same {
+                l.violation(Violation {
+                    property: ID,
+                    key: "graph:fragment-included-repeatedly".into(),
+                    what: format!("{}: with #include {}, with the text written out {}", name, o1.summary(), o2.summary()),
+                    case: json!({"kind": "fragment", "files": files.iter().map(|(n, b)| json!([n, String::from_utf8_lossy(b)])).collect::<Vec<_>>(), "spliced": spliced, "expected": o2.summary(), "observed": o1.summary()}),
+                });
+            }
+        }));
+        breakdown.insert("fragment_included_repeatedly", json!({"fragments": fragments.iter().map(|f| f.0).collect::<Vec<_>>(), "cases": cases.len()}));
+    }
+
     // ---- 3. RANGES
     let fcases = fn_cases();
     stash(&mut parts, 5, par_cases(&fcases, judge_fn));
@@ -1320,6 +1385,16 @@ pub fn replay(ctx: &Ctx, case: &serde_json::Value) -> i32 {
                 let obs = run::assemble_files(&files, &roots_ref, &run::Opts::default());
                 println!("roots {:?} -> {} (expected bytes {:02x?})", roots, obs.summary(), want);
                 if !(obs.success() && bits_bytes(&obs.bits).as_ref() == Some(&want)) {
+                    l.violation(Violation { property: ID, key: "replay".into(), what: "still differs".into(), case: case.clone() });
+                }
+            }
+            "fragment" => {
+                let files: Vec<(String, Vec<u8>)> = case["files"].as_array().cloned().unwrap_or_default().iter().map(|f| (f[0].as_str().unwrap_or("").to_string(), f[1].as_str().unwrap_or("").as_bytes().to_vec())).collect();
+                let o1 = run::assemble_files(&files, &["main.asm"], &run::Opts::default());
+                let o2 = run::assemble_str(case["spliced"].as_str().unwrap_or(""), &run::Opts::default());
+                println!("with #include: {}\nwritten out:   {}", o1.summary(), o2.summary());
+                let same = o1.panicked.is_none() && ((o2.success() && o1.success() && o1.bits == o2.bits && o1.symbols == o2.symbols) || (o2.failure() && o1.failure()));
+                if !same {
                     l.violation(Violation { property: ID, key: "replay".into(), what: "still differs".into(), case: case.clone() });
                 }
             }
